@@ -29,6 +29,11 @@ InitOf(r) ==
         base == SelectSeq(r.calls, LAMBDA x : x.u = 1 /\ x.k = "line")
     IN [S |-> [S0 EXCEPT !.above = [j \in 1..Len(base) |-> LogItem(base[j].c)]], T |-> T0]
 
+(* results of calls that return something *)
+RetOK(S1, r) ==
+    /\ (r.op = "is_hidden" /\ r.b \in S1.ids) => (r.ret = (IF Visible(S1, r.b) THEN "false" ELSE "true"))
+    /\ (r.op = "upgrade" /\ r.b \in S1.ids /\ S1.bars[r.b].weak) => (r.ret = (IF S1.bars[r.b].alive THEN "some" ELSE "none"))
+
 (* getters after the call agree with the contract's logical state *)
 GetOK(S1, r) ==
     LET b == r.b IN
@@ -40,6 +45,7 @@ GetOK(S1, r) ==
         /\ r.get.pos_s = B.pos
         /\ r.get.haslen = (B.len # NoLen)
         /\ (B.len # NoLen => r.get.len_s = B.len)
+        /\ r.get.elapsed_us = r.t - B.born                       \* elapsed() under the virtual clock
 
 (* C06: an operation on a bar that is not attached to a visible target (hidden target,  *)
 (* Term that is not a tty, member of a hidden MultiProgress, removed from its           *)
@@ -83,6 +89,7 @@ Step(S0, T0, r) ==
          rule |-> IF LibCalls(r) # <<>> THEN "QuietOK"
                   ELSE IF res.forced THEN "ForcedOK"
                   ELSE IF ~FinalOK(S0, S1, r) THEN "FinalOK"
+                  ELSE IF ~RetOK(S1, r) THEN "RetOK"
                   ELSE IF ~GetOK(S1, r) THEN "GetOK"
                   ELSE ""]
     ELSE
